@@ -126,7 +126,9 @@ def judge_state(ctx, h, steps, rng):
         # mean-curve peak: judged on the object's own mean curve with the C08 oracle
         mc = got["mean_curve"]
         mp = got["mean_curve_peak"]
-        if not isinstance(mc, tuple):
+        if not isinstance(mc, tuple) and h._find_peaks_kwargs:
+            ctx.count("mean_curve_peak_not_judged_find_peaks_kwargs")    # height / prominence redefine "a peak" (C08 ASSUMPTIONS)
+        elif not isinstance(mc, tuple):
             o = Oracle(f, mc, tuple(sr))
             if isinstance(mp, tuple) and mp and mp[0] == "raises":
                 ctx.check(not o.nan_forbidden, "mean-curve-peak", "mean_curve_peak refused although the mean curve has an "
